@@ -497,6 +497,10 @@ func checkC11(an *Analysis, add func(Violation)) {
 			v("failed", "discovery failed: "+c.Rec.Obs.Err)
 			continue
 		}
+		if T := c.Client.Timeout; c.End.T > c.Sends[0].T+T {
+			v("window-long", fmt.Sprintf("discovery went on collecting for %v after its request; the timeout is %v (replies \"received before the timeout\" are the result)", c.End.T-c.Sends[0].T, T))
+			continue
+		}
 		if T := c.Client.Timeout; c.End.T < c.Sends[0].T+T {
 			v("window-short", fmt.Sprintf("discovery stopped collecting %v after its request; replies may arrive for the whole timeout %v (it had waited %v for the bind port)", c.End.T-c.Sends[0].T, T, c.Turn()-c.Begin.T))
 			continue
